@@ -53,6 +53,8 @@ class Frame:
         self.vars: Dict[str, Any] = {}
         self.local_names = local_names
         self.cur_exc: Optional[Obj] = None
+        self.global_names: set = set()
+        self.nonlocal_names: set = set()
 
 
 def assigned_names(node: ast.AST) -> set:
@@ -318,9 +320,10 @@ class Interp(CallMixin):
             val = self.ext_value(res[4:])
         elif isinstance(res, tuple) and res[0] == "modvar":
             _, m, n = res
-            expr = self.model.module_constant(m, n)
+            sts = m.assigns.get(n, [])
+            expr = sts[0].value if len(sts) == 1 else None  # (a `global` rebinding inside a function is interpreted, see exec)
             if expr is None:
-                raise Unsupported(f"module variable {m.name}.{n} is not bound exactly once")
+                raise Unsupported(f"module variable {m.name}.{n} is not bound exactly once at module level")
             key = (m.name, n)
             if key in self.modvals:
                 return self.modvals[key]
@@ -364,6 +367,17 @@ class Interp(CallMixin):
 
     def exec(self, st: ast.stmt, frame: Frame) -> None:  # pylint:disable=too-many-branches,too-many-statements
         self.tick(st)
+        if isinstance(st, ast.Expr) and isinstance(st.value, (ast.Yield, ast.YieldFrom)):
+            f_ = frame
+            while f_ is not None and not hasattr(f_, "yields"):
+                f_ = f_.parent
+            if f_ is None:
+                self.unsupported(st, frame, "yield outside a generator frame")
+            if isinstance(st.value, ast.Yield):
+                f_.yields.append(self.eval(st.value.value, frame) if st.value.value is not None else None)
+            else:
+                f_.yields.extend(self.iterate(self.eval(st.value.value, frame), st, frame))
+            return
         if isinstance(st, ast.Expr):
             if isinstance(st.value, ast.Constant):
                 return  # docstring
@@ -488,8 +502,14 @@ class Interp(CallMixin):
                     self.exec_block(case.body, frame)
                     return
             return
-        if isinstance(st, ast.Global) or isinstance(st, ast.Nonlocal):
-            self.unsupported(st, frame)
+        if isinstance(st, ast.Global):
+            frame.global_names.update(st.names)
+            frame.local_names = set(frame.local_names) - set(st.names)
+            return
+        if isinstance(st, ast.Nonlocal):
+            frame.nonlocal_names.update(st.names)
+            frame.local_names = set(frame.local_names) - set(st.names)
+            return
         if isinstance(st, ast.Delete):
             for t in st.targets:
                 if isinstance(t, ast.Name):
@@ -601,6 +621,16 @@ class Interp(CallMixin):
 
     def assign(self, target: ast.expr, val: Any, frame: Frame) -> None:
         if isinstance(target, ast.Name):
+            if target.id in frame.global_names:
+                self.modvals[(frame.module.name, target.id)] = val
+                return
+            if target.id in frame.nonlocal_names:
+                f = frame.parent
+                while f is not None:
+                    if target.id in f.vars or target.id in f.local_names:
+                        f.vars[target.id] = val
+                        return
+                    f = f.parent
             frame.vars[target.id] = val
         elif isinstance(target, (ast.Tuple, ast.List)):
             items = self.iterate(val, target, frame)
@@ -707,6 +737,16 @@ class Interp(CallMixin):
                 else:
                     assert isinstance(part, ast.FormattedValue)
                     v = self.eval(part.value, frame)
+                    if part.format_spec is not None:
+                        spec = self.eval(part.format_spec, frame)
+                        if isinstance(spec, str) and isinstance(v, (str, int, float, bool)) and not isinstance(v, StrT):
+                            try:
+                                acc = strt_concat(acc, format(v, spec))
+                                continue
+                            except (ValueError, TypeError) as err_:
+                                self.raise_(type(err_).__name__, str(err_))
+                        if spec != "":
+                            self.unsupported(part, frame, f"format spec {spec!r} on {v!r}")
                     acc = strt_concat(acc, self.to_str(v, part, frame, repr_mode=(part.conversion == ord("r"))))
             return acc
         if isinstance(e, ast.Tuple):
@@ -824,6 +864,12 @@ class Interp(CallMixin):
         if isinstance(op, (ast.BitAnd, ast.BitOr, ast.BitXor)):
             if isinstance(a, bool) and isinstance(b, bool):
                 return {ast.BitAnd: a & b, ast.BitOr: a | b, ast.BitXor: a ^ b}[type(op)]
+            if isinstance(a, (set, frozenset)) and isinstance(b, (set, frozenset)):
+                return {ast.BitAnd: a & b, ast.BitOr: a | b, ast.BitXor: a ^ b}[type(op)]
+            if isinstance(a, dict) and isinstance(b, dict) and isinstance(op, ast.BitOr):
+                return {**a, **b}
+            if isinstance(a, int) and isinstance(b, int):
+                return {ast.BitAnd: a & b, ast.BitOr: a | b, ast.BitXor: a ^ b}[type(op)]
             dunder = {ast.BitAnd: "__and__", ast.BitOr: "__or__", ast.BitXor: "__xor__"}[type(op)]
             if isinstance(a, EnumVal):
                 cls = self.model.classes.get(a.cls)
@@ -854,6 +900,8 @@ class Interp(CallMixin):
                     return self.call(FuncVal(fn=m, self_obj=b, module=m.module), [a], {}, node, frame)
             if isinstance(a, (str, StrT)) and isinstance(b, Opaque) or isinstance(b, (str, StrT)) and isinstance(a, Opaque):
                 return strt_concat(a if not isinstance(a, Opaque) else StrT((a,)), b if not isinstance(b, Opaque) else StrT((b,)))
+        if isinstance(op, ast.Sub) and isinstance(a, (set, frozenset)) and isinstance(b, (set, frozenset)):
+            return a - b
         if isinstance(op, ast.Sub) and isinstance(a, Obj) and a.cls in self.model.classes:
             m = self.model.find_method(self.model.classes[a.cls], "__sub__")
             if m is not None:
@@ -861,7 +909,15 @@ class Interp(CallMixin):
         if isinstance(op, (ast.Sub, ast.Mult, ast.FloorDiv, ast.Mod)) and isinstance(a, int) and isinstance(b, int):
             return {ast.Sub: a - b, ast.Mult: a * b, ast.FloorDiv: a // b if b else 0, ast.Mod: a % b if b else 0}[type(op)]
         if isinstance(op, ast.Mod) and isinstance(a, str):
+            vals = b if isinstance(b, tuple) else (b,)
+            if all(isinstance(x, (str, int, float, bool)) or x is None for x in vals):
+                try:
+                    return a % b
+                except (TypeError, ValueError) as err_:
+                    self.raise_(type(err_).__name__, str(err_))
             return StrT((a, Opaque("%args")))
+        if isinstance(op, ast.Mult) and (isinstance(a, (str, list, tuple)) and isinstance(b, int) or isinstance(b, (str, list, tuple)) and isinstance(a, int)):
+            return a * b
         self.unsupported(node, frame, f"binary {type(op).__name__} on {a!r}, {b!r}")
         return None
 
@@ -969,13 +1025,16 @@ class Interp(CallMixin):
         self.call_depth += 1
         if self.call_depth > 60:
             raise Unsupported(f"call depth > 60 in {fn.qualname}")
+        is_gen = any(isinstance(n_, (ast.Yield, ast.YieldFrom)) for n_ in walk_shallow(fn.node))
+        if is_gen:
+            frame.yields = []  # a finite generator is materialised eagerly (laziness is not modelled)
         try:
             self.bind_params(fn.node.args, fv, args, kwargs, frame, fn.qualname)
             try:
                 self.exec_block(fn.node.body, frame)
             except _Return as r:
-                return r.value
-            return None
+                return frame.yields if is_gen else r.value
+            return frame.yields if is_gen else None
         finally:
             self.call_depth -= 1
 
